@@ -1280,7 +1280,18 @@ func (env *SpecEnv) evalTrace(pred string, args []*SExpr) Value {
 		for _, ev := range tr {
 			if ev.MayLoop != nil {
 				if loopMayEmit(ev, n) {
-					return boolV(False)
+					// a loop whose own invariant says none(E) emitted none
+					proven := false
+					if !ev.Deep && args[0].Op == "id" {
+						for _, p := range ev.Proven[n] {
+							if p == "#none" {
+								proven = true
+							}
+						}
+					}
+					if !proven {
+						return boolV(False)
+					}
 				}
 				continue
 			}
